@@ -228,8 +228,26 @@ def run(R):
     to = ctx(R, CP + '.top_order')
 
     def guard2(cx, label, pred, exc=SE):
-        hits = [(t, pred(t.ast)) for t in cx.cfg.nodes if t.kind == 'test' and pred(t.ast) is not None]
+        def rd(c_, t_):
+            # the test with single-definition locals read through (`ids = d.get(k); if ids is None` is `d.get(k) is None`)
+            try:
+                return inline_ast(c_, t_.ast)
+            except Exception:
+                return t_.ast
+        _p0 = pred
+        pred = lambda e, _p0=_p0: _p0(e)     # noqa: E731
+        hits = [(t, pred(t.ast) if pred(t.ast) is not None else pred(rd(cx, t))) for t in cx.cfg.nodes if t.kind == 'test']
+        hits = [(t, l) for (t, l) in hits if l is not None]
         inst = f'{cx.qual} :: {label}'
+        if not hits:
+            # the check may stand in a new helper that could not be expanded in place (called inside a comprehension / generator)
+            from .common import new_callees
+            for c2 in new_callees(R, cx):
+                h2 = [(t, pred(t.ast) if pred(t.ast) is not None else pred(rd(c2, t))) for t in c2.cfg.nodes if t.kind == 'test']
+                h2 = [(t, l) for (t, l) in h2 if l is not None]
+                if h2:
+                    cx, hits = c2, h2
+                    break
         if not hits:
             R.fail('C13.GRD.3', inst, cx.qual, 'def ' + cx.f.node.name, f'no check for "{label}"', site(cx, cx.f.node))
         else:
@@ -366,7 +384,16 @@ def run(R):
     else:
         R.fail('C13.GRD.3', inst, sc.qual, tc[0] if tc else 'def _sanity_check', 'cyclic signing relations are not detected (no top_order over the signing graph)', site(sc, sc.f.node))
     fx = ctx(R, CP + '.Compiler._fix_signing_references')
-    guard2(fx, 'unknown signer rule', lambda t: True if ast.unparse(t) == 'rid not in self.rule_node_ids' else None)
+    import re as _re
+
+    def unknown_signer(t):
+        x = ast.unparse(t)
+        if _re.fullmatch(r'\w+ not in self\.rule_node_ids', x) or _re.fullmatch(r'self\.rule_node_ids\.get\(\w+(, None)?\) is None', x):
+            return True
+        if _re.fullmatch(r'\w+ in self\.rule_node_ids', x) or _re.fullmatch(r'self\.rule_node_ids\.get\(\w+(, None)?\) is not None', x):
+            return False
+        return None
+    guard2(fx, 'unknown signer rule', unknown_signer)
     # ------------------------------------------------------------------ LOP.1 top_order terminates
     R.ob('C13.LOP.1', 'top_order terminates: every round removes at least one node or raises')
     inst = to.qual + ' :: progress per round'
